@@ -47,7 +47,9 @@ func runC40(run *mon.Run, thorough bool) {
 		maxK = 7
 	}
 	run.Set("bound", fmt.Sprintf("every non-empty subset of size <= %d of the starting-round grid %v, every insertion order, every query round 0..max+offset+2, every prune point (each stored start, each non-stored grid value, PruneRoundStorage with every target count)", maxK, c40Grid))
-	run.Assume(fmt.Sprintf("non-genesis magic blocks start after round ViewChangeOffset (%d): for a start in 1..%d mbRoundOffset is not monotonic (rounds <= %d are looked up without offset, round %d with it)", chain.ViewChangeOffset, chain.ViewChangeOffset, chain.ViewChangeOffset, chain.ViewChangeOffset+1))
+	run.Assume(fmt.Sprintf("grid and sequence families: non-genesis magic blocks start after round ViewChangeOffset (%d): for a start in 1..%d mbRoundOffset is not monotonic (rounds <= %d are looked up without offset, round %d with it). "+
+		"The chain-model family (c40chain.go) has no such restriction: starts 0..12 in every combination, judged at every round with the exact rule (rounds 0..%d unshifted, later rounds looked up for round-%d)",
+		chain.ViewChangeOffset, chain.ViewChangeOffset, chain.ViewChangeOffset, chain.ViewChangeOffset+1, chain.ViewChangeOffset, chain.ViewChangeOffset))
 	run.Assume("a prune that removes every stored magic block is outside the statement (nothing is retained); Chain.PruneRoundStorage always keeps >= 1 entry. " +
 		"In the operation sequences such a prune is judged (the storage must be empty afterwards) and ends the sequence; what a later Put of an older start does is counted as an observation only")
 
@@ -335,6 +337,9 @@ func runC40(run *mon.Run, thorough bool) {
 
 	// operation sequences: Put / Prune / lookups interleaved, judged after every step against the reference model
 	c40seqRun(run, rnd.Fork("sequences"), c, thorough)
+
+	// chain-level family: fresh real Chains, starting rounds around the view-change offset, every round queried (c40chain.go)
+	c40chainRun(run, rnd.Fork("chain-model"), thorough)
 }
 
 func maxOf(s []int64) int64 {
